@@ -14,6 +14,8 @@ import (
 type checkFn func(r *Result, rng *rand.Rand, thorough bool)
 type replayFn func(r *Result, rp json.RawMessage)
 
+var realStderr *os.File
+
 var checks = map[string]checkFn{}
 var replays = map[string]replayFn{}
 
@@ -30,6 +32,11 @@ func main() {
 	replay := fs.String("replay", "", "")
 	fs.StringVar(&driverPath, "driver", "/verif/lean/.lake/build/bin/driver", "")
 	fs.Parse(os.Args[2:])
+	// the server logs to os.Stderr (captured when its loggers are created): silence it, keep ours
+	realStderr = os.Stderr
+	if dn, err := os.OpenFile(os.DevNull, os.O_WRONLY, 0); err == nil && os.Getenv("VERIF_SERVER_LOG") == "" {
+		os.Stderr = dn
+	}
 	start := time.Now()
 	r := newResult(prop, *tier, *seed)
 	if *replay != "" {
